@@ -78,7 +78,21 @@ def r1(run):
         run.ob(MOD + "::execute_command|worker|err-has-no-terminal@%s" % w.blocks[bb]["term"]["sp"].rsplit(":", 2)[0].split("/")[-1], not before, w.blocks[bb]["term"]["sp"],
                "an Err return never follows a terminal event (the dispatcher appends the single .error then)", reason="two-terminal-events")
     # complete only on the success arm of run_command, error on its failure arm
-    rc = [c for c in w.calls() if c.bb in w.live_blocks() and c.fn == MOD + "::run_command"]
+    # (the call that evaluates the command's closure: `run_command`, or whatever function of this crate the worker calls that reaches
+    # nu's block evaluation within two calls, or that evaluation itself when it is written out in the worker)
+    def _evaluates(fn, depth=2):
+        if fn.startswith("nu_engine::") and "eval_block" in fn:
+            return True
+        hb = run.facts.body(fn) if depth > 0 else None
+        if hb is None:
+            return False
+        run.touch(hb)
+        return any(_evaluates(cc.fn, depth - 1) for cc in hb.calls() if cc.bb in hb.live_blocks())
+    def _takes_closure(fn):
+        # (config parsing evaluates blocks too - the definition script; the command's own closure is handed over as a `Closure`)
+        hb = run.facts.body(fn)
+        return hb is None or any("engine::closure::Closure" in hb.local_tystr(i) or "engine::Closure" in hb.local_tystr(i) for i in range(1, hb.argc + 1))
+    rc = [c for c in w.calls() if c.bb in w.live_blocks() and (c.fn == MOD + "::run_command" or (_evaluates(c.fn) and _takes_closure(c.fn)))]
     run.exact("run_command call sites", len(rc), 1, w.sp)
     for c in rc:
         ok_e, err_e = q.call_result_edges(w, c, ok=True), q.call_result_edges(w, c, ok=False)
